@@ -25,6 +25,8 @@ def run(ctx):
     ctx.each(r04c, ctx, repo)
     ctx.each(r04d, ctx, repo)
     ctx.each(r04e, ctx, repo)
+    ctx.rule("R01e", "junction balance passes on all inflow; residual = inflow - sum(other outflows) per row (shared with C01)")
+    ctx.each(c01.r01e, ctx, repo, K.types(repo))
 
 
 def _junction_classes(repo):
@@ -63,9 +65,10 @@ def r04a(ctx, repo):
             fi = ci.methods["initial_flush"]
             me = K.self_name(fi)
             cfg = K.cfg(repo, fi)
-            guards = [s for s in own_nodes(fi.node) if isinstance(s, ast.If) and ast.unparse(s.test).replace(" ", "") in ("%s.vals[0]>0" % me, "%s.vals[0]" % me, "%s.vals[0]!=0" % me, "%s.vals[0]>0.0" % me)]
-            ctx.require(len(guards) == 1, "R04a: %s: guard `if self.vals[0] > 0` not found (unrecognised shape)" % fi.fq)
+            guards = [s for s in own_nodes(fi.node) if isinstance(s, ast.If) and ("%s.vals[0]" % me) in ast.unparse(s.test) and any("dest[0]" in ast.unparse(x) for x in ast.walk(s))]
+            ctx.require(len(guards) == 1, "R04a: %s: guard on self.vals[0] around the flush not found (unrecognised shape)" % fi.fq)
             g = guards[0]
+            flush_guard_region(ctx, fi, g, me, "R04a")
             zero = [s for s, t, k, v in astq.stores(fi.node) if k == "assign" and ast.unparse(t) == "%s.vals[0]" % me and _is_zero(v)]
             if not zero:
                 ctx.fail("R04a", fi, g, "initial_flush pushes the junction's people downstream but never zeroes the junction: they are duplicated", stmt_text="zero-after-flush")
@@ -266,3 +269,17 @@ def r04e(ctx, repo):
     ctx.check(bool(P) and not cfg.path_exists([ENTRY], ids(F), avoid_ids=ids(P)), "R04e", fi, F[0], "update_pars precedes the initial flush", "the initial junction flush can run before parameters are evaluated: junction proportions that are functions are still NaN")
     ctx.check(bool(L) and not cfg.path_exists(ids(F), ids(L) + head, avoid_ids=ids(P)), "R04e", fi, F[0], "update_pars runs again between the flush and update_links", "after the initial flush moved people, parameters are not re-evaluated before links are resolved")
     ctx.check(bool(L) and not cfg.path_exists(ids(F), head, avoid_ids=ids(L)), "R04e", fi, L[0] if L else F[0], "update_links runs before the first step", "the integration loop can start without the links of the initial step being resolved")
+
+
+def flush_guard_region(ctx, fi, g, me, rule):
+    """The initial flush must act only when the junction holds people: the guard is true exactly for vals[0] > 0 (truthiness accepted)."""
+    var = "%s.vals[0]" % me
+    t = g.test
+    if ast.unparse(t) == var:
+        regs = frozenset({"lt", "gt"})
+    else:
+        try:
+            regs = R.truth(t, var, 0)
+        except (R.Unrecognised, R.OtherThreshold) as e:
+            raise AnalysisError("%s: unrecognised flush guard `%s`" % (rule, ast.unparse(t)))
+    ctx.check("eq" not in regs and "gt" in regs, rule, fi, g, "flush only when the junction holds people", "the initial flush also runs for an *empty* junction (`%s`): `dest[0] += 0` is not a no-op for a timed destination - assigning its total re-spreads it uniformly over the elapsed-time bins, so a state restored from a saved run (or any non-uniform initial occupancy) is flattened before the first step" % ast.unparse(t))
